@@ -98,15 +98,17 @@ func (p *G1Elt) Data() ([]byte, error) {
 
 func (p *G1Elt) Add(a, b kyber.Point) kyber.Point {
 	aa, bb := a.(*G1Elt), b.(*G1Elt)
+	bInner := bb.inner // p may alias b
 	p.inner.Set(&aa.inner)
-	p.inner.AddAssign(&bb.inner)
+	p.inner.AddAssign(&bInner)
 	return p
 }
 
 func (p *G1Elt) Sub(a, b kyber.Point) kyber.Point {
 	aa, bb := a.(*G1Elt), b.(*G1Elt)
+	bInner := bb.inner // p may alias b
 	p.inner.Set(&aa.inner)
-	p.inner.SubAssign(&bb.inner)
+	p.inner.SubAssign(&bInner)
 	return p
 }
 
